@@ -1324,13 +1324,13 @@ def is_parse_error(r):
 def sizes(ctx):
     tier, esc = ctx['tier'], ctx['escalate']
     if tier == 'thorough':
-        return dict(seq_len3_leads=('', '-', '+'), seq4_basic=True, seq4_random=20736, derivations=6000, renderings=6,
-                    invalid=3000, mutants=12000, graders=400)
+        return dict(leads12=('', '-', '+'), leads3=('', '-', '+'), seq4_basic=True, seq4_random=20736, leaf_sets=4,
+                    derivations=6000, renderings=6, invalid=3000, mutants=12000, graders=400)
     if esc:
-        return dict(seq_len3_leads=('', '-'), seq4_basic=True, seq4_random=3000, derivations=900, renderings=5,
-                    invalid=900, mutants=3000, graders=120)
-    return dict(seq_len3_leads=('', '-'), seq4_basic=True, seq4_random=1200, derivations=500, renderings=5,
-                invalid=500, mutants=1500, graders=80)
+        return dict(leads12=('', '-', '+'), leads3=('', '-'), seq4_basic=True, seq4_random=1500, leaf_sets=1,
+                    derivations=500, renderings=6, invalid=700, mutants=2000, graders=100)
+    return dict(leads12=('', '-', '+'), leads3=('',), seq4_basic=True, seq4_random=600, leaf_sets=1,
+                derivations=300, renderings=5, invalid=400, mutants=1000, graders=60)
 
 
 class Collector(object):
@@ -1377,7 +1377,7 @@ def run_sequences(ctx, res, col, rng, sz):
     seqs = []
     for k in (1, 2, 3):
         for seq in itertools.product(CONNECTORS, repeat=k):
-            for lead in sz['seq_len3_leads']:
+            for lead in (sz['leads3'] if k == 3 else sz['leads12']):
                 seqs.append((lead, seq))
     if sz['seq4_basic']:
         for seq in itertools.product(BASIC, repeat=4):
@@ -1391,7 +1391,7 @@ def run_sequences(ctx, res, col, rng, sz):
         seqs.append((rng.choice(['', '', '-']), seq))
     n_violation = 0
     for idx, (lead, seq) in enumerate(seqs):
-        leaves = LEAF_SETS[idx % len(LEAF_SETS)] if ctx['tier'] != 'thorough' else None
+        leaves = LEAF_SETS[idx % len(LEAF_SETS)] if sz['leaf_sets'] == 1 else None
         for li, lv in enumerate(LEAF_SETS):
             if leaves is not None and lv is not leaves:
                 continue
